@@ -7,9 +7,12 @@ executable.
     if messages and n_notes < len(messages):
         code = 2 if blockers else 1
 
-    def count_stats(messages):
+    def count_stats(messages):                                    # rule `substring` (the tree as found)
         errors = [e for e in messages if ": error:" in e]
         notes  = [e for e in messages if ": note:" in e]
+    def count_stats(messages):                                    # rule `firstMarker` (after the F5 fix)
+        errors = [e for e in messages if message_severity(e) == "error"]
+        notes  = [e for e in messages if message_severity(e) == "note"]
 
 `messages` are the formatted lines (`Errors.format_messages_default`, neither `--pretty` nor column
 numbers): `f"{srcloc}: {severity}: {message}"` + `f"  [{code}]"`.  Texts are lists of characters.
@@ -47,13 +50,38 @@ def sevText : Sev → List Char
 def format (l : Line) : List Char :=
   l.srcloc ++ [':', ' '] ++ sevText l.sev ++ [':', ' '] ++ l.message ++ l.codeSuffix
 
+/-- which of the two markers starts first in `s` (Python: compare the two `str.find` results) -/
+def firstMarker : List Char → Option Sev
+  | [] => none
+  | c :: cs =>
+    if isPrefix errorMarker (c :: cs) then some .error
+    else if isPrefix noteMarker (c :: cs) then some .note
+    else firstMarker cs
+
+/-- how `util.count_stats` decides the severity of a formatted line; which one the checked tree uses is
+    recognised by translate/exitrule.py (`Gen/ExitRule.lean`)
+    * `substring`:   `": error:" in e` / `": note:" in e`   (a line can be both)
+    * `firstMarker`: `util.message_severity(e)`: the marker that occurs first -/
+inductive Rule | substring | firstMarker | unknown
+deriving Repr, DecidableEq
+
+def isNoteLine : Rule → List Char → Bool
+  | .substring, s => isInfix noteMarker s
+  | .firstMarker, s => firstMarker s == some .note
+  | .unknown, _ => false
+
+def isErrorLine : Rule → List Char → Bool
+  | .substring, s => isInfix errorMarker s
+  | .firstMarker, s => firstMarker s == some .error
+  | .unknown, _ => false
+
 /-- `util.count_stats`: (n_errors, n_notes) -/
-def countStats (messages : List (List Char)) : Nat × Nat :=
-  ((messages.filter (isInfix errorMarker)).length, (messages.filter (isInfix noteMarker)).length)
+def countStats (r : Rule) (messages : List (List Char)) : Nat × Nat :=
+  ((messages.filter (isErrorLine r)).length, (messages.filter (isNoteLine r)).length)
 
 /-- the status `main` exits with -/
-def exitCode (messages : List (List Char)) (blockers : Bool) : Nat :=
-  if !messages.isEmpty && (countStats messages).2 < messages.length then (if blockers then 2 else 1) else 0
+def exitCode (r : Rule) (messages : List (List Char)) (blockers : Bool) : Nat :=
+  if !messages.isEmpty && (countStats r messages).2 < messages.length then (if blockers then 2 else 1) else 0
 
 /-- what the property says the status must be, from the severities -/
 def truth (ls : List Line) (blockers : Bool) : Nat :=
